@@ -86,9 +86,9 @@ def run(asl, data, tasks=None, typ="STANDARD", name="e", raw_event=None):
     exarn = ARN.replace("stateMachine", "execution") + ":" + name
     ed.publish(raw_event if raw_event is not None else
                {"data": data, "context": {"StateMachine": {"Id": ARN}, "Execution": {"Name": name}}})
-    ed.run()
+    n_events = ed.run()
     terms = [n for s, n in ed.notes if n["detail"]["status"] != "RUNNING"]
-    res = dict(status="NONE", output=None, output_raw=None, error=None, cause=None, n_terminal=len(terms),
+    res = dict(status="NONE", output=None, output_raw=None, error=None, cause=None, n_terminal=len(terms), events=n_events,
                notes=ed.notes, history=list(se.execution_history.get(exarn, [])), record=se.executions.get(exarn),
                unacked=dict(ed.unacknowledged_messages))
     if terms:
